@@ -61,13 +61,22 @@ static Outcome run_chain(std::vector<Ext> const& chain, std::vector<int> const& 
 		for(std::size_t s = 1; s < chain.size() && out.ok; ++s) {
 			int form = forms[s - 1];
 			bool same_ext = chain[s - 1] == chain[s] && count(chain[s]) > 0;
-			auto* before = rawp(a.data_elements()); long al = W.nalloc, dl = W.ndealloc;
+			auto* before = rawp(a.data_elements()); long al = W.nalloc, dl = W.ndealloc; long const qd = instr::Q::ndefault;
+			idx common = 0; for_tuples(chain[s], [&](idx const* t) { if(inside(chain[s - 1], t)) { ++common; } });
 			switch(form) {
 				case F_LVALUE: a.reextent(X(chain[s])); break;
 				case F_FILL: a.reextent(X(chain[s]), make<T>(FILL)); break;
 				default: { auto&& r = std::move(a).reextent(X(chain[s])); if(&r != &a) { fail("rvalue-reextent-returns-other-object", ""); } break; }
 			}
 			m = model_reextent(m, chain[s], form, TypeInfo<T>::value_init);
+			// C08: every element of the new block that is not copy-constructed from an old element or from the fill value must have been default-constructed (counted for Q, whose
+			// copies cannot be tracked): the library may construct only the new positions or the whole block and then assign the common part
+			if constexpr(std::is_same_v<T, instr::Q>) {
+				if(form == F_LVALUE && !same_ext && count(chain[s]) > 0) {
+					long const made = instr::Q::ndefault - qd; idx const nn = count(chain[s]);
+					if(made != nn && made != nn - common) { fail("elements-of-the-new-block-not-constructed", std::to_string(made) + " default constructions for a new block of " + std::to_string(nn) + " elements (" + std::to_string(common) + " in common with the old extents)"); }
+				}
+			}
 			if(same_ext) {
 				if(rawp(a.data_elements()) != before) { fail("same-extents-moved-storage", "reextent to the current extents changed data_elements()"); }
 				if(W.nalloc != al || W.ndealloc != dl) { fail("same-extents-reallocated", ""); }
@@ -96,7 +105,7 @@ static Outcome run_chain(std::vector<Ext> const& chain, std::vector<int> const& 
 	return out;
 }
 
-static long g_evals = 0, g_nonempty_common = 0;
+static long g_evals = 0, g_nonempty_common = 0; static std::string g_prop = "all";
 
 template<class T>
 static void grid(std::vector<Ext> const& exts, bool chains, long shard, long nshards) {
@@ -117,6 +126,8 @@ static void grid(std::vector<Ext> const& exts, bool chains, long shard, long nsh
 			auto const& it = items[i];
 			{ Ext const& a = it.chain[it.chain.size() - 2]; Ext const& b = it.chain.back(); bool common = false; for_tuples(b, [&](idx const* t) { if(inside(a, t)) { common = true; } }); if(common) { ++g_nonempty_common; } }
 			if(outs[i].ok) { continue; }
+			{ bool monitor = outs[i].oracle.rfind("registry", 0) == 0 || outs[i].oracle.rfind("leak", 0) == 0 || outs[i].oracle.rfind("elements-of-the-new-block-not-constructed", 0) == 0 || outs[i].oracle.rfind("live-elements", 0) == 0 || outs[i].oracle.rfind("extra-block", 0) == 0;
+			  std::string owner = monitor ? "C08" : "C06"; if(g_prop != "all" && g_prop != owner) { continue; } }
 			std::string rp = tn; for(auto const& e : it.chain) { rp += "|" + str(e); } rp += "|"; for(auto f : it.forms) { rp += std::to_string(f); }
 			std::string opn = fname[it.forms.back()];
 			std::string orc = outs[i].oracle.substr(0, outs[i].oracle.find('('));
@@ -141,6 +152,7 @@ int main(int argc, char** argv) {
 		auto outs = isolated(1, [&](int) { return f[0] == "int" ? run_chain<int>(chain, forms) : f[0] == "Q" ? run_chain<instr::Q>(chain, forms) : f[0] == "tracked" ? run_chain<instr::E>(chain, forms) : run_chain<R>(chain, forms); });
 		std::printf("REPLAY %s %s %s\n", outs[0].ok ? "OK" : "VIOLATION", outs[0].oracle.c_str(), outs[0].detail.c_str()); return outs[0].ok ? 0 : 1;
 	}
+	g_prop = args.get("prop", "all");
 	auto exts = all_exts(thorough);
 	bool chains = D == 1 || (D == 2 && thorough);
 	grid<int>(exts, chains, shard, nshards);
